@@ -40,7 +40,7 @@ ASSUMPTIONS = [
     "TableReader files are well-formed numeric rows (two or more columns); malformed rows are outside the statement",
 ]
 REQUIRED = {"stratum:table": 60, "stratum:reader": 60, "stratum:plot": 40, "reader:no_final_newline": 15,
-            "reader:unsorted": 15, "reader:x_scaled": 20, "table:x_scaled": 8, "reader:inside_node_inside": 10, "reader:comments": 15, "table:xy": 15, "table:x_y": 15, "table:potable": 20}
+            "reader:unsorted": 15, "reader:x_scaled": 20, "table:x_scaled": 8, "reader:inside_node_inside": 10, "reader:other_interval_then_node_then_inside": 15, "reader:comments": 15, "table:xy": 15, "table:x_y": 15, "table:potable": 20}
 
 
 @st.composite
@@ -58,6 +58,26 @@ def _table_case(draw, maxpts):
         else:
             xexp = 0
     return {"kind": "table", "table": t, "queries": qs, "potable": draw(st.booleans()), "xexp": xexp}
+
+
+@st.composite
+def _sequence(draw, n):
+    """look-ups on one reader: free sequences, and walks that enter an interval through one of its tabulated end
+    points after having been inside ANOTHER interval (inside j - node of i - inside i)"""
+    hi = max(0, n - 2)
+    inside = st.sampled_from([0.3, 0.5, 0.75])
+    free = st.lists(st.tuples(st.integers(0, hi), st.sampled_from([0.0, 0.0, 1.0, 0.3, 0.5, 0.75])).map(list), min_size=3, max_size=10)
+    if hi < 1 or draw(st.booleans()):
+        return draw(free)
+    seq = []
+    for _ in range(draw(st.integers(1, 3))):
+        j = draw(st.integers(0, hi))
+        i = draw(st.integers(0, hi).filter(lambda k: k != j))
+        seq.append([j, draw(inside)])
+        # the node is the lower end of interval i, or the upper end of the interval below it
+        seq.append([i, 0.0] if i == 0 or draw(st.booleans()) else [i - 1, 1.0])
+        seq.append([i, draw(inside)])
+    return seq
 
 
 @st.composite
@@ -82,8 +102,7 @@ def _reader_case(draw):
             "queries": [q * 10.0 ** xexp for q in draw(st.lists(gen.fl(-7.0, 42.0), min_size=3, max_size=8))],
             "xexp": xexp,
             # look-ups on ONE reader in this order: [interval, position in it] with 0 and 1 the tabulated ends
-            "sequence": draw(st.lists(st.tuples(st.integers(0, max(0, n - 2)), st.sampled_from([0.0, 0.0, 1.0, 0.3, 0.5, 0.75])).map(list),
-                                      min_size=3, max_size=10)),
+            "sequence": draw(_sequence(n)),
             "noise_at": draw(st.lists(st.integers(0, 30), min_size=0, max_size=4))}
 
 
@@ -238,6 +257,10 @@ def _check_reader(case):
             break
     if any(a == "inside" and b == "node" and c == "inside" for a, b, c in zip(kinds, kinds[1:], kinds[2:])):
         cls.append("reader:inside_node_inside")
+    sq = case.get("sequence", [])
+    if any(a[1] not in (0.0, 1.0) and c[1] not in (0.0, 1.0) and a[0] != c[0] and (b == [c[0], 0.0] or b == [c[0] - 1, 1.0])
+           for a, b, c in zip(sq, sq[1:], sq[2:])):
+        cls.append("reader:other_interval_then_node_then_inside")
     for x, y in rows:
         got = tr(x)
         if got != y:
